@@ -20,11 +20,21 @@ import (
 // ---------------------------------------------------------------------------- case
 
 type Op struct {
-	Kind  string `json:"k"` // ins | rm | clr | set | unset
+	Kind  string `json:"k"` // ins | rm | clr | set | unset | repl
 	Name  string `json:"n"`
 	Face  uint64 `json:"f,omitempty"`
 	Cost  uint64 `json:"c,omitempty"`
 	Strat int    `json:"s,omitempty"`
+	// repl: the next-hop sets of several prefixes replaced in one call (ReplaceNextHopsEnc: what
+	// the RIB publishes with), in any order -- withdrawals (empty sets) before or after updates of
+	// the same prefix, of ancestors, of descendants (seeded C05-r7-1 resolved the nodes of the whole
+	// batch first and pruned some of them while applying it)
+	Batch []Repl `json:"b,omitempty"`
+}
+
+type Repl struct {
+	Name string      `json:"n"`
+	Hops [][2]uint64 `json:"h,omitempty"` // (face, cost)
 }
 
 type Case struct {
@@ -124,6 +134,16 @@ func (m *model) apply(op Op) {
 		}
 	case "clr":
 		delete(m.hops, op.Name)
+	case "repl":
+		for _, r := range op.Batch {
+			delete(m.hops, r.Name)
+			for _, h := range r.Hops {
+				if m.hops[r.Name] == nil {
+					m.hops[r.Name] = map[uint64]uint64{}
+				}
+				m.hops[r.Name][h[0]] = h[1]
+			}
+		}
 	case "set":
 		m.strat[op.Name] = strategies[op.Strat]
 	case "unset":
@@ -255,7 +275,24 @@ func genCase(t *rapid.T) Case {
 	}
 	for i := 0; i < nops; i++ {
 		var op Op
-		switch rapid.SampledFrom([]string{"ins", "ins", "ins", "rm", "rm", "clr", "set", "set", "unset"}).Draw(t, "kind") {
+		switch rapid.SampledFrom([]string{"ins", "ins", "ins", "rm", "rm", "clr", "set", "set", "unset", "repl"}).Draw(t, "kind") {
+		case "repl":
+			op = Op{Kind: "repl"}
+			for k := rapid.IntRange(1, 4).Draw(t, "batch"); k > 0; k-- {
+				r := Repl{Name: pick("rn")}
+				for j := rapid.IntRange(0, 2).Draw(t, "rhops"); j > 0; j-- {
+					f := uint64(rapid.IntRange(1, 5).Draw(t, "rface"))
+					dup := false
+					for _, h := range r.Hops {
+						dup = dup || h[0] == f
+					}
+					if !dup {
+						r.Hops = append(r.Hops, [2]uint64{f, rapid.SampledFrom([]uint64{0, 1, 2, 10}).Draw(t, "rcost")})
+					}
+				}
+				op.Batch = append(op.Batch, r)
+				touched = append(touched, r.Name)
+			}
 		case "ins":
 			op = Op{Kind: "ins", Name: pick("n"), Face: uint64(rapid.IntRange(1, 5).Draw(t, "face")),
 				Cost: rapid.SampledFrom([]uint64{0, 1, 1, 2, 10, 1 << 40}).Draw(t, "cost")}
@@ -283,7 +320,9 @@ func genCase(t *rapid.T) Case {
 			}
 		}
 		m.apply(op)
-		touched = append(touched, op.Name)
+		if op.Kind != "repl" {
+			touched = append(touched, op.Name)
+		}
 		c.Ops = append(c.Ops, op)
 	}
 	nq := rapid.IntRange(0, 6).Draw(t, "nq")
@@ -352,7 +391,10 @@ func makeTables(m int) []impl {
 }
 
 func applyOp(t table.FibStrategy, op Op) {
-	n := mkName(op.Name) // a fresh name per call: the hash table keeps the caller's slice
+	var n enc.Name
+	if op.Kind != "repl" {
+		n = mkName(op.Name) // a fresh name per call: the hash table keeps the caller's slice
+	}
 	switch op.Kind {
 	case "ins":
 		t.InsertNextHopEnc(n, op.Face, op.Cost)
@@ -360,6 +402,16 @@ func applyOp(t table.FibStrategy, op Op) {
 		t.RemoveNextHopEnc(n, op.Face)
 	case "clr":
 		t.ClearNextHopsEnc(n)
+	case "repl":
+		var ups []table.FibNextHopsUpdate
+		for _, r := range op.Batch {
+			u := table.FibNextHopsUpdate{Name: mkName(r.Name)}
+			for _, h := range r.Hops {
+				u.Nexthops = append(u.Nexthops, table.FibNextHopEntry{Nexthop: h[0], Cost: h[1]})
+			}
+			ups = append(ups, u)
+		}
+		t.ReplaceNextHopsEnc(ups)
 	case "set":
 		t.SetStrategyEnc(n, mkName(strategies[op.Strat]))
 	case "unset":
@@ -439,11 +491,21 @@ func checkTables(impls []impl, m *model, names []string, step int) error {
 
 func closure(c Case) []string {
 	set := map[string]bool{"/": true}
+	var names []string
 	for _, op := range c.Ops {
-		for _, p := range prefixes(op.Name) {
+		if op.Kind == "repl" {
+			for _, r := range op.Batch {
+				names = append(names, r.Name)
+			}
+			continue
+		}
+		names = append(names, op.Name)
+	}
+	for _, name := range names {
+		for _, p := range prefixes(name) {
 			set[p] = true
 		}
-		pc := comps(op.Name)
+		pc := comps(name)
 		for _, x := range alphabet {
 			set[join(append(append([]string{}, pc...), x))] = true
 			set[join(append(append([]string{}, pc...), x, "a"))] = true
